@@ -218,7 +218,7 @@ def run(ctx):
         else:
             add('%s_int' % name, gen_binop(name, sym, kind, ipairs), 'operator %s on %d pairs of {bool,int,unsigned,long,unsigned long}, symbolic type tags and values' % (sym, len(ipairs)), backend='cadical')
         quick_flt = ('lessThan', 'greaterThanEq', 'equal', 'notEqual', 'and', 'bitAnd', 'leftShift', 'mod')      # one or two operators of every kind in the quick tier
-        if fpairs and (kind in ('cmp', 'logic', 'bit', 'shl', 'shr', 'mod') or name in ('add', 'sub')) and (thorough or name in quick_flt):
+        if fpairs and kind in ('cmp', 'logic', 'bit', 'shl', 'shr', 'mod') and (thorough or name in quick_flt):
             add('%s_flt' % name, gen_binop(name, sym, kind, fpairs), 'operator %s on the %d operand-type pairs involving float/double' % (sym, len(fpairs)), timeout=900 if thorough else 300, backend='cadical')
     for (name, sym, kind) in UNA:
         types = [t[0] for t in split(name, [(t,) for t in INT + FLT])]
